@@ -275,3 +275,59 @@ func VC_C08x_error()  { vK08 = 5; VC_C08_error() }
 func VC_C08x_map()    { vK08 = 5; VC_C08_map() }
 func VC_C08x_slice()  { vK08 = 5; VC_C08_slice() }
 func VC_C08x_func()   { vK08 = 5; VC_C08_func() }
+
+var vgAny interface{}
+
+type vC08Err struct{ code int }
+
+func (e *vC08Err) Error() string { return "vC08Err" }
+
+// VC_C08_iface_zero: an interface-typed variable whose pre-mock value is non-nil but
+// boxes a zero value (int 0, "", false, a typed nil pointer, a zero struct): Cancel/Reset
+// put back exactly that value, dynamic type included - not a nil interface.
+func VC_C08_iface_zero() {
+	var tn *vC08Err
+	orig := [6]interface{}{0, "", false, tn, vCfg{}, nil}
+	k := verifChoice("orig", 6)
+	vgAny = orig[k]
+	vals := [4]interface{}{orig[k], 1, "m2", vCfg{3, "m3"}}
+	vVarHistory(vK08, &vgAny, vals, func() interface{} { return vCfg{3, "m3"} }, func(i int) bool {
+		if i == 0 {
+			switch k {
+			case 0:
+				v, ok := vgAny.(int)
+				return ok && v == 0
+			case 1:
+				v, ok := vgAny.(string)
+				return ok && v == ""
+			case 2:
+				v, ok := vgAny.(bool)
+				return ok && !v
+			case 3:
+				v, ok := vgAny.(*vC08Err)
+				return ok && v == nil && vgAny != nil
+			case 4:
+				v, ok := vgAny.(vCfg)
+				return ok && v == vCfg{}
+			}
+			return vgAny == nil
+		}
+		return vgAny == vals[i]
+	}, "C08.iface-zero")
+}
+
+// the same for an error variable holding a typed nil pointer (a non-nil error)
+func VC_C08_error_typed_nil() {
+	var tn *vC08Err
+	vgErr = tn
+	e1, e2, e3 := errors.New("e1"), errors.New("e2"), errors.New("e3")
+	vals := [4]interface{}{vgErr, e1, e2, e3}
+	es := [4]error{vgErr, e1, e2, e3}
+	vVarHistory(vK08, &vgErr, vals, func() error { return e3 }, func(i int) bool {
+		if i == 0 {
+			v, ok := vgErr.(*vC08Err)
+			return ok && v == nil && vgErr != nil
+		}
+		return vgErr == es[i]
+	}, "C08.error-typed-nil")
+}
